@@ -182,6 +182,23 @@ theorem zcornCell_of_created (d : Dims) {i j : Nat} (hi : i < d.nx) (hj : j < d.
   unfold zcornCellDTops
   exact zTopsAt_congr dz d _ _ (topsEntry_first abs tol _ n0 dz inp (col_lt d hi hj)) _
 
+/-- The two readings of the TOPS vector agree wherever the column has no retained gap: the
+every-layer ZCORN of the created vector is the first-layer stack of the input. -/
+theorem zcornCellFull_eq_stack (d : Dims) {i j : Nat} (hi : i < d.nx) (hj : j < d.ny)
+    (hstack : ∀ k, i + j * d.nx + (k + 1) * (d.nx * d.ny) < n0 →
+      abs (zTopsAt d dz inp i j k + dz (i + j * d.nx + k * d.nx * d.ny) -
+        inp (i + j * d.nx + (k + 1) * (d.nx * d.ny))) < tol) (k c : Nat) :
+    zcornCellFull d dz (topsEntry abs tol (d.nx * d.ny) n0 dz inp) i j k c =
+      zcornCellDTops d dz inp i j k c := by
+  have hT : topsEntry abs tol (d.nx * d.ny) n0 dz inp (i + j * d.nx + k * d.nx * d.ny) =
+      zTopsAt d dz inp i j k := by
+    rw [Nat.mul_assoc k d.nx d.ny, topsEntry_col abs tol _ n0 dz inp (col_lt d hi hj)]
+    exact topsAt_eq_stack abs tol n0 dz inp d hstack k
+  unfold zcornCellFull zcornCellDTops
+  by_cases hc : c < 4
+  · rw [if_pos hc, if_pos hc, hT]
+  · rw [if_neg hc, if_neg hc, hT]; rfl
+
 end Tops
 
 section TopsField
